@@ -186,7 +186,7 @@ ImplSBackward(mode, M, L, bmode) ==
 (* ---- the scalar forms of module DWT1Src describe these tensors (checked by TLC; proved equal to Ref by TLAPS) ---- *)
 ScalarFormA(mode, N, L) ==
     ~ImplARaises(mode, N, L) =>
-        Same3(ImplA(mode, N, L), FromSrc(ImplALen(mode, N, L), L, N, LAMBDA m, t : ImplASrc(mode, N, L, m, t)))
+        Same3(ImplA(mode, N, L), FromSrc(ImplACount(mode, N, L), L, N, LAMBDA m, t : ImplASrc(mode, N, L, m, t)))
 ScalarFormRefA(mode, N, L) ==
     Same3(RefA(mode, N, L), FromSrc(RefALen(mode, N, L), L, N, LAMBDA k, j : RefASrc(mode, N, L, k, j)))
 ScalarFormS(mode, M, L) ==
